@@ -377,6 +377,7 @@ def line_of(src, pos):
 
 class Unit:
     def __init__(self, name, vacuity=False):
+        self.demote = {}
         self.name = name
         self.vacuity = vacuity
         self.segs = []  # (text, origin)
@@ -427,6 +428,12 @@ class Unit:
         edits = [x for x in edits if not any(c.s <= x.s and x.e <= c.e for c in cedits)] + cedits
         r = Renderer(src, edits)
         body = r.render(s, e)
+        for a_, b_ in opts.get("subs", []):
+            # R29 (type part): a boxed trait-object callback type is replaced by the opaque shim type that stands for it
+            if a_ not in body:
+                raise AnchorLost(f"{relfile}:{path}: item no longer contains `{a_}`")
+            body = body.replace(a_, b_)
+            self.log("R29", relfile, src, s, f"{path}: type `{a_}` -> `{b_}`")
         derives = opts.get("derive")
         if derives is None:
             derives = [d for d in it["derives"] if d in KEEP_DERIVES]
@@ -1110,6 +1117,18 @@ class Unit:
                 btxt = "{ " + entry_txt_r23 + mm.group(4).strip() + " }"
             if "r21" in opts:
                 btxt = re.sub(r"\b(?:tokio::time::)?Instant::now\(\)", "clk__.now()", btxt)
+            if "r29" in opts:
+                # R29: a boxed trait-object callback (`Box<dyn FnOnce..>`, outside the Verus subset) is an opaque shim value:
+                # `Box::new(f)` -> `DynBox__::new(f)` (a type alias of the module for its shim), the call `cb(args)` of the named binding -> `cb.invoke(args)`
+                btxt, n1 = re.subn(r"(?<![\w:])Box::new\(", "DynBox__::new(", btxt)
+                n2 = 0
+                if isinstance(opts["r29"], str):
+                    for nm in opts["r29"].split(","):
+                        btxt, k_ = re.subn(r"(?<![\w.:])" + re.escape(nm) + r"\(", nm + ".invoke(", btxt)
+                        n2 += k_
+                if n1 + n2 == 0:
+                    raise AnchorLost(f"{where}: r29: the body neither boxes nor calls a callback any more")
+                self.log("R29", relfile, src, bs, f"{path}: boxed callback as an opaque shim value ({n1}x Box::new -> DynBox__::new, {n2}x call -> .invoke)")
             self.emit(btxt + "\n", {"kind": "body", "file": relfile, "fn": fname, "line": line_of(src, bs), "tags": tags,
                                     "src_first_line": line_of(src, bs)})
         if body and not ext_body:
@@ -1248,6 +1267,15 @@ class Unit:
                     i += 1
                 if isfn:
                     nseg_ = len(self.segs)
+                    nvac_, nrw_, ntr_ = len(self.vac_ids), len(self.rewrites), len(self.trusted)
+                    if (relfile, path) in self.demote and "ext_body" not in opts:
+                        # demotion: the body of this function no longer compiles under the verifier (a construct outside its subset,
+                        # or a type error caused by a rewrite that no longer fits). It is emitted with its contract ASSUMED so that the
+                        # rest of the unit is still decided; every property that tags it is undecided (listed under `lost`)
+                        opts = dict(opts, ext_body=True)
+                        self.lost = getattr(self, "lost", [])
+                        self.lost.append({"file": relfile, "path": path, "tags": [t for t in opts.get("tags", "").split(",") if t],
+                                          "why": f"{relfile}::{path}: body not accepted by the verifier after the change ({self.demote[(relfile, path)]}); contract assumed for the other functions"})
                     try:
                         self.do_fn(relfile, path, opts, parts, origin)
                     except AnchorLost as ex_:
@@ -1255,8 +1283,22 @@ class Unit:
                         # Properties that tag it become undecided; the other properties of the unit are still decided (code that
                         # calls the missing function does not compile, which is reported as undecided as well)
                         del self.segs[nseg_:]
+                        del self.vac_ids[nvac_:]
+                        del self.rewrites[nrw_:]
+                        del self.trusted[ntr_:]
                         self.lost = getattr(self, "lost", [])
                         self.lost.append({"file": relfile, "path": path, "tags": [t for t in opts.get("tags", "").split(",") if t], "why": str(ex_)})
+                        # if the function itself still exists (only a position inside its body was lost) it is kept as an ASSUMED
+                        # contract, so that its callers - and the properties that do not tag it - are still decided
+                        if "ext_body" not in opts:
+                            try:
+                                self.do_fn(relfile, path, dict(opts, ext_body=True),
+                                           {k: v for k, v in parts.items() if not isinstance(k, tuple) and k != "entry"}, origin)
+                            except (AnchorLost, Unsupported):
+                                del self.segs[nseg_:]
+                                del self.vac_ids[nvac_:]
+                                del self.rewrites[nrw_:]
+                                del self.trusted[ntr_:]
                 else:
                     self.do_item(relfile, path, opts, origin)
             elif d.startswith("#") or d.strip() == "":
@@ -1266,6 +1308,15 @@ class Unit:
 
     # R25: a function that the code under contract calls but the template does not name (a helper added by a change) is pulled in
     # WITHOUT a contract: its body is verified for the implicit obligations, its callers learn nothing about its result
+    def _pull_opts(self, relfile, pth, tags):
+        o = {"tags": tags}
+        if (relfile, pth) in self.demote:
+            o["ext_body"] = True
+            self.lost = getattr(self, "lost", [])
+            self.lost.append({"file": relfile, "path": pth, "tags": [t for t in tags.split(",") if t],
+                              "why": f"{relfile}::{pth} (pulled in, R25): body not accepted by the verifier ({self.demote[(relfile, pth)]}); nothing is assumed about its result"})
+        return o
+
     def pull(self, pulls):
         done = []
         for (ty, fn) in pulls:
@@ -1326,7 +1377,7 @@ class Unit:
                 before = len(self.segs)
                 hdr = src0[imrec["header"][0]:imrec["header"][1]].decode()
                 self.emit(hdr.strip() + " {\n", {"kind": "tpl", "tpl": "auto-pull"})
-                self.do_fn(relfile, pth, {"tags": ""}, {}, "auto-pull")
+                self.do_fn(relfile, pth, self._pull_opts(relfile, pth, ""), {}, "auto-pull")
                 self.emit("}\n", {"kind": "tpl", "tpl": "auto-pull"})
                 new = self.segs[before:]
                 del self.segs[before:]
@@ -1344,7 +1395,7 @@ class Unit:
             if neigh is None:
                 continue
             before = len(self.segs)
-            self.do_fn(relfile, pth, {"tags": neigh.get("opts_tags", "")}, {}, "auto-pull")
+            self.do_fn(relfile, pth, self._pull_opts(relfile, pth, neigh.get("opts_tags", "")), {}, "auto-pull")
             new = self.segs[before:]
             del self.segs[before:]
             at = neigh["segs"][1]
@@ -1385,11 +1436,20 @@ def origin_of(meta, line):
     return o
 
 
-def build(unit, outdir, vacuity=False, pulls=None):
+def build(unit, outdir, vacuity=False, pulls=None, demote=None):
     tpl = os.path.join(VERIF, "units", unit, "unit.rs.tpl")
     u = Unit(unit, vacuity=vacuity)
+    u.demote = dict(demote or {})
     u.process(tpl)
     pulled = u.pull(pulls) if pulls else []
+    # functions under contract that call a pulled (contract-less) function: what they learn about its result is nothing, so a
+    # failing obligation in them is "needs a contract", not a violation (verdict.py reports it as undecided)
+    pnames = {fn for (_, fn) in pulled}
+    for f in u.functions:
+        if "segs" in f and pnames:
+            body = "".join(t for t, _ in u.segs[f["segs"][0]:f["segs"][1]])
+            last = f["path"].split("#")[0].split("::")[-1]
+            f["calls_uncontracted"] = sorted(n for n in pnames if n != last and re.search(r"\b" + re.escape(n) + r"\s*\(", body))
     text, meta = u.finish()
     meta["pulled"] = [list(x) for x in pulled]
     os.makedirs(outdir, exist_ok=True)
